@@ -46,6 +46,10 @@ SPECS = {
     "y ~ 0 + C(z, contr.helmert) | C(z, contr.helmert) + x": (lambda: Formula("y ~ 0 + C(z, contr.helmert) | C(z, contr.helmert) + x"), "yxz"),
     "y ~ 0 + C(g, contr.sum):x | C(g, contr.sum) + x": (lambda: Formula("y ~ 0 + C(g, contr.sum):x | C(g, contr.sum) + x"), "yxg"),
     "Formula(('0 + z', 'z', 'x:z'))": (lambda: Formula(("0 + z", "z", "x:z")), "xz"),
+    # parts whose terms differ only by a literal scale or by the written factor order
+    "y ~ 2:x + z | x + g": (lambda: Formula("y ~ 2:x + z | x + g"), "yxzg"),
+    "y ~ x:z | z:x + w": (lambda: Formula("y ~ x:z | z:x + w"), "ywxz"),
+    "Formula(('3:x:g', 'g:x', 'x'))": (lambda: Formula(("3:x:g", "g:x", "x")), "xg"),
     # a part without columns, and nested tuples
     "y ~ x | 0": (lambda: Formula("y ~ x | 0"), "yx"),
     "y + z ~ 0": (lambda: Formula("y + z ~ 0"), "yz"),
@@ -119,15 +123,19 @@ def drv(c, ctx, col):
     if any(v in used and len(per_var_parts.get(v, ())) < len(fl) for (v, i) in nulls):
         col.interesting()
     col.sample(detail)
+    reported = set()  # the caller's (initially empty) drop set: must end up equal to the jointly dropped rows
     try:
         if entry == "model_matrix":
-            got = model_matrix(formula, df, output=output)
+            got = model_matrix(formula, df, output=output, drop_rows=reported)
         elif entry == "Formula.get_model_matrix":
-            got = formula.get_model_matrix(df, output=output)
+            got = formula.get_model_matrix(df, output=output, drop_rows=reported)
         else:
-            got = ModelSpec.from_spec(formula, output=output).get_model_matrix(df)
+            got = ModelSpec.from_spec(formula, output=output).get_model_matrix(df, drop_rows=reported)
     except Exception as e:  # noqa
         col.violation(key, dict(detail, error="%s: %s" % (type(e).__name__, str(e)[:200])), sig="raised:" + type(e).__name__)
+        return
+    if {int(i) for i in reported} != set(joint):
+        col.violation(key, dict(detail, reported_drop_set=sorted(int(i) for i in reported), expected=joint), sig="joint-drop-set-not-reported")
         return
     gl = leaves(got)
     if set(gl) != set(fl) or list(gl) != list(fl):
@@ -138,6 +146,18 @@ def drv(c, ctx, col):
         col.violation(key, dict(detail, spec_paths=[list(p) for p in sl], formula_paths=[list(p) for p in fl]), sig="shape:spec")
         return
     want_index = list(df.index[kept])
+    # the attached (structured) spec as a whole regenerates the whole result, with the same joint rows
+    if isinstance(got, Structured):
+        try:
+            regen_all = leaves(got.model_spec.get_model_matrix(df))
+        except Exception as e:  # noqa
+            col.violation(key, dict(detail, error="%s: %s" % (type(e).__name__, str(e)[:200])), sig="structured-spec-regeneration-raised:" + type(e).__name__)
+            return
+        for path, part in gl.items():
+            G, R = dense(part), dense(regen_all.get(path))
+            if R.shape != G.shape or not np.allclose(R, G, rtol=1e-12, atol=1e-12, equal_nan=True):
+                col.violation(key, dict(detail, path=list(path), shape=list(G.shape), regenerated_shape=list(R.shape)), sig="structured-spec-does-not-regenerate-result")
+                return
     for path, part in gl.items():
         G = dense(part)
         if G.shape[0] != len(kept):
